@@ -3,6 +3,7 @@
    Proofs/DispatchInv.v (containment: the dispatcher records the outcome of every finished
    dependency in the waiting node's bad_deps / ignored_deps before the node is handed over). *)
 From DoitV Require Import Base Dispatch Runner Parallel DispatchP DispatchInv RunnerTr RunnerP ParallelP.
+From DoitV Require Import AncP HoldP CompleteP TermP LiveP OutcomeSpec OutcomeInvP OutcomeSerialP OutcomeParP OutcomeLiveP.
 Open Scope N_scope.
 
 (* serial runner: every failure report (TaskFailed, TaskError, unmet dependency, dependency error
@@ -96,3 +97,72 @@ Print Assumptions C05_failure_removed_parallel.
 
 (* NOT PROVED here: that NOTHING reaches the
    DB for a failed task is C07's refinement applied to the ERemove/ESave events above. *)
+
+(* --continue processes everything else, WITH THE RIGHT OUTCOME.  [fin tasks always k r]
+   (Proofs/OutcomeSpec.v): the outcome r the task table prescribes for task k -- ignored if an effective
+   dependency is ignored (or the task is), else unmet-dependency failure if one failed, else get_status
+   error, else up-to-date, else (run) by its setup-tasks, _get_task_args and its actions.
+   A serial --continue run that ends normally (exit code 0/1/2) reports EVERY selected task, each with
+   exactly that outcome: the failure of one task changes the outcome of the tasks that effectively
+   depend on it (unmet dependency) and of no other task *)
+Theorem C05_continue_right_outcome_serial :
+  forall tasks wake_rank calc_rank always fuel selection,
+    let res := run_serial tasks wake_rank calc_rank true always fuel selection in
+    snd res <= 2 -> forall x, In x selection -> exists r, fin tasks always x r /\ In (ev_of x r) (fst res).
+Proof. exact serial_continue_right_outcome. Qed.
+Print Assumptions C05_continue_right_outcome_serial.
+
+(* over a finite acyclic task table, with enough fuel: unless an action interrupts the run *)
+Theorem C05_continue_right_outcome_acyclic :
+  forall tasks univ selection, finite_table tasks univ -> (forall k, ~ reach tasks k k) ->
+  forall wake_rank calc_rank always fuel, (enough_fuel tasks univ selection <= fuel)%nat ->
+    let res := run_serial tasks wake_rank calc_rank true always fuel selection in
+    snd res = 4 \/ forall x, In x selection -> exists r, fin tasks always x r /\ In (ev_of x r) (fst res).
+Proof. exact serial_acyclic_right_outcome. Qed.
+Print Assumptions C05_continue_right_outcome_acyclic.
+
+(* every final report, of every run (with or without --continue, serial or parallel, cut short or
+   not), is the one the task table prescribes *)
+Theorem C05_right_outcome_serial :
+  forall tasks wake_rank calc_rank continue_ always fuel selection k e,
+    In e (fst (run_serial tasks wake_rank calc_rank continue_ always fuel selection)) -> is_final_ev k e = true ->
+    exists r, fin tasks always k r /\ e = ev_of k r.
+Proof. exact serial_outcome_sound. Qed.
+Print Assumptions C05_right_outcome_serial.
+
+Theorem C05_right_outcome_parallel :
+  forall tasks wake_rank calc_rank continue_ always proc fuel nprocs sched selection k e,
+    In (PE e) (fst (run_parallel tasks wake_rank calc_rank continue_ always proc fuel nprocs sched selection)) ->
+    is_final_ev k e = true ->
+    exists r, fin tasks always k r /\ e = ev_of k r.
+Proof. exact parallel_outcome_sound. Qed.
+Print Assumptions C05_right_outcome_parallel.
+
+(* in particular: a task all of whose effective dependencies end well is not affected by failures
+   elsewhere -- if it is reported, then as the table prescribes from ITS dependencies only.  E.g. the
+   unmet-dependency failure is reported only for a task with a failed effective dependency: *)
+Theorem C05_unmet_only_with_failed_dependency :
+  forall tasks always k, fin tasks always k (FFail false kind_unmet) ->
+    exists a x, is_failst (sta a x) = true /\ fin tasks always x (a x) /\
+      (vdep tasks (sta a) k x \/ In x (t_setup (get_task tasks k))).
+Proof.
+  intros tasks always k H. inversion H as [k0 a p r D F S|k0 a r D F Dset Sec]; subst.
+  - destruct p; simpl in S; try discriminate. inversion F as [| Hn Hdb (x & Hx & Hf)| | |]; subst.
+    exists a, x. split; [exact Hf|]. split; [apply D; exact Hx|left; exact Hx].
+  - inversion Sec as [|Hn (x & Hx & Hf)|r0 Hg He]; subst.
+    + exists a, x. split; [exact Hf|]. split; [apply Dset; exact Hx|right; exact Hx].
+    + exfalso. unfold exec_res in He. destruct (t_argerr (get_task tasks k)); [discriminate|].
+      destruct (t_outcome (get_task tasks k)); discriminate.
+Qed.
+Print Assumptions C05_unmet_only_with_failed_dependency.
+
+Example C05_right_outcome_nonvacuous :
+  let tb := fun n => match n with
+    | 0 => Some (Build_task [1] [] [] false false CkRun false OOk [] [] [])
+    | 1 => Some (Build_task [] [] [] false false CkRun false OFail [] [] [])
+    | 2 => Some (Build_task [] [] [] false false CkRun false OOk [] [] [])
+    | _ => None end in
+  snd (run_serial tb (fun _ _ => 0) (fun _ => 0) true false 100 [0; 2]) = 2 /\
+  In (EFailure 0 kind_unmet) (fst (run_serial tb (fun _ _ => 0) (fun _ => 0) true false 100 [0; 2])) /\
+  In (ESuccess 2) (fst (run_serial tb (fun _ _ => 0) (fun _ => 0) true false 100 [0; 2])).
+Proof. vm_compute. tauto. Qed.
